@@ -412,13 +412,24 @@ fn header_numbers() -> Vec<(bool, u64)> {
 /// parameter method (RICE2) and parameters the constructors refuse.
 fn run_parsed_rice2(rep: &Report, local: &mut Local) {
     use super::c11::BitStr;
+    // (partition order, block size, warm-up): the small ones, and every high partition order of the 4-bit
+    // field with blocks it divides (thousands of partitions: sums of parameters beyond 16 bits)
+    let mut shapes: Vec<(usize, usize, usize)> = Vec::new();
+    for po in 0..=2usize {
+        for (bs, warmup) in [(16usize, 0usize), (64, 2), (32, 1)] {
+            shapes.push((po, bs, warmup));
+        }
+    }
+    for (po, bs) in [(8usize, 4096usize), (10, 1024), (12, 4096), (13, 8192), (13, 16384), (14, 16384), (14, 32768), (15, 32768)] {
+        shapes.push((po, bs, 0));
+    }
     for method in [0u64, 1] {
-        for po in 0..=2usize {
+        for &(po, bs, warmup) in &shapes {
             for param in [0u64, 3, 14, 15, 16, 30] {
                 if method == 0 && param > 14 {
                     continue;
                 }
-                for (bs, warmup) in [(16usize, 0usize), (64, 2), (32, 1)] {
+                {
                     let mut b = BitStr::default();
                     b.push(method, 2);
                     b.push(po as u64, 4);
@@ -533,7 +544,7 @@ fn run_headers_and_metadata(rep: &Arc<Report>) {
         }
     }
     rep.merge(local);
-    rep.add_rule("hand-written residual bit strings (4-bit and 5-bit parameter methods, parameters up to 30, partition orders 0..=2) through parser::residual; FrameHeader::new over Frame(n)/StartSample(n) at every power of two +-2 and within +-64 of every coded-length boundary (2^7..2^31 / 2^36) x 6 block-size/width/rate/channel specs; MetadataBlockData::new_unknown tags{1,2,126} x sizes{0,1,255,65536}, alone and in a stream");
+    rep.add_rule("hand-written residual bit strings (4-bit and 5-bit parameter methods, parameters up to 30, partition orders 0..=2 and 8..=15 with up to 32768 partitions) through parser::residual; FrameHeader::new over Frame(n)/StartSample(n) at every power of two +-2 and within +-64 of every coded-length boundary (2^7..2^31 / 2^36) x 6 block-size/width/rate/channel specs; MetadataBlockData::new_unknown tags{1,2,126} x sizes{0,1,255,65536}, alone and in a stream");
 }
 
 pub fn run(args: &Args, rep: &Arc<Report>) {
